@@ -50,3 +50,10 @@ package iqr
 //@   assumed
 //@   pure
 //@ end
+
+// reads one column (materialising it from the segment readers when needed):
+// frame only, ASSUMED — it writes nothing a processor keeps of its own
+//@ func (*IQR).ReadColumn
+//@   assumed
+//@   pure
+//@ end
